@@ -127,3 +127,20 @@ def make_decorated(hint, conf, pos='param'):
             return a
         f.__annotations__ = {'a': hint, 'return': hint}
     return beartype(conf=conf)(f)
+
+
+def beartype_hook_count():
+    """Number of beartype path hooks in sys.path_hooks (FileFinder.path_hook closures over beartype's loader)."""
+    import sys
+    n = 0
+    for h in sys.path_hooks:
+        found = False
+        for c in getattr(h, '__closure__', None) or ():
+            try:
+                if 'Beartype' in repr(c.cell_contents):
+                    found = True
+            except ValueError:
+                pass
+        if found or 'beartype' in (getattr(h, '__module__', '') or ''):
+            n += 1
+    return n
